@@ -101,6 +101,25 @@ static void check_spanner(vr::Runner &R, const vg::EdgeList &el, const std::vect
 #endif
 }
 
+static bool g_force_large = false;     // amplified graphs: always the Horton reference (their number of simple cycles explodes)
+
+// --amp r: "parallel composition". The base graph's vertices 0 and 1 are terminals; the result has r copies of everything
+// else glued at the terminals (an edge joining the terminals stays single), every copy carrying the base weights. A closing
+// path that is too heavy for ONE non-spanner edge breaks the (2k-1) bound only if several such cycles share a heavy edge that
+// the optimum uses once - amplification turns every per-edge slip of the base graph into that situation, systematically,
+// instead of waiting for a hand-made adversarial instance.
+static void amplify(const vg::EdgeList &el, const std::vector<double> &w, int r, vg::EdgeList &out, std::vector<double> &wout) {
+    out = vg::EdgeList(); wout.clear();
+    int inner = std::max(0, el.n - 2);
+    out.n = std::min(el.n, 2) + inner * r;
+    auto map = [&](int v, int j) { return v < 2 ? v : 2 + j * inner + (v - 2); };
+    for (int i = 0; i < el.m(); ++i) {
+        int a = el.e[i].first, b = el.e[i].second;
+        int copies = (a < 2 && b < 2) ? 1 : r;
+        for (int j = 0; j < copies; ++j) { out.e.push_back({map(a, j), map(b, j)}); wout.push_back(w[i]); }
+    }
+}
+
 // graphs with more than 62 edges: dynamic bitsets and the Horton reference instead of 64-bit masks / all-cycles
 static void run_case_large(vr::Runner &R, const Cfg &cfg, const vg::EdgeList &el, const std::vector<double> &w, int dim, uint64_t unit, uint64_t sub, B &b, bool verbose) {
     b.set_weights(w);
@@ -140,7 +159,7 @@ static void run_case_large(vr::Runner &R, const Cfg &cfg, const vg::EdgeList &el
 
 static void run_case(vr::Runner &R, const Cfg &cfg, const vg::EdgeList &el, const std::vector<double> &w,
         const std::vector<uint64_t> &cyc, int dim, uint64_t unit, uint64_t sub, B &b, bool verbose = false) {
-    if (el.m() > 62) { run_case_large(R, cfg, el, w, dim, unit, sub, b, verbose); return; }
+    if (el.m() > 62 || g_force_large) { run_case_large(R, cfg, el, w, dim, unit, sub, b, verbose); return; }
     b.set_weights(w);
     vg::RefResult<double> ref; bool have_ref = false;
     auto need_ref = [&]() { if (!have_ref) { ref = vg::reference_mcb<double>(cyc, w, dim); std::sort(ref.weights.begin(), ref.weights.end()); have_ref = true; } };
@@ -212,7 +231,7 @@ int main(int argc, char **argv) {
         if (pc.get("component") == "spanner") { cfg.c05 = cfg.c06 = false; cfg.c15 = true; }
         else { cfg.variants = {vv::variant_by_short(pc.get("variant", "approx_mcb_sva_signed"))}; cfg.c15 = false; }
         int dim = vg::cycle_space_dim(pc.g);
-        std::vector<uint64_t> cyc; if (pc.g.m() <= 62) cyc = vg::all_simple_cycles(pc.g);
+        std::vector<uint64_t> cyc; if (pc.g.m() <= 30) cyc = vg::all_simple_cycles(pc.g); else g_force_large = true;
         R.worker_id = 0;
         B b(pc.g, pc.w);
         run_case(R, cfg, pc.g, pc.w, cyc, dim, 0, 0, b, true);
@@ -244,18 +263,31 @@ int main(int argc, char **argv) {
     auto describe = [&](uint64_t u, uint64_t sub, uint64_t var) {
         vg::EdgeList el = unit_graph(u);
         std::vector<double> w; vg::weighting(alpha, el.m(), sub, w);
+        if (A.geti("amp", 1) > 1) { vg::EdgeList e2; std::vector<double> w2; amplify(el, w, (int) A.geti("amp", 1), e2, w2); el = e2; w = w2; }
         if (var >= 100) { long k = cfg.ks[var - 100] < 0 ? el.n + 1 : cfg.ks[var - 100]; return std::make_pair(std::string("BaseApproxSpannerAlgorithm::construct_spanner"), vg::case_string(el, w, "component=spanner;k=" + std::to_string(k))); }
         long k = cfg.ks[var / 10] < 0 ? el.n + 1 : cfg.ks[var / 10];
         return std::make_pair(std::string(vv::approx_name((int) (var % 10))), cs_of(el, w, (int) (var % 10), k));
     };
+    const int amp = (int) A.geti("amp", 1); g_force_large = amp > 1;
     const int max_m = (int) A.geti("max-m", 1 << 30), min_m = (int) A.geti("min-m", 0);      // restrict a universe to its sparse / dense part (stated in the bound)
     auto work = [&](uint64_t u, uint64_t start_sub) {
         vg::EdgeList el = unit_graph(u);
         if (el.m() > max_m || el.m() < min_m) return;
-        int dim = vg::cycle_space_dim(el);
-        std::vector<uint64_t> cyc; if (el.m() <= 62) cyc = vg::all_simple_cycles(el);
         uint64_t nw = vg::num_weightings(alpha, el.m());
         std::vector<double> w; vg::weighting(alpha, el.m(), 0, w);
+        if (amp > 1) {
+            vg::EdgeList el2; std::vector<double> w2; amplify(el, w, amp, el2, w2);
+            int dim2 = vg::cycle_space_dim(el2);
+            B b2(el2, w2);
+            for (uint64_t s = start_sub; s < nw; ++s) { if (R.expired()) break; if (s % wchunks != u % wchunks) continue;
+                vg::weighting(alpha, el.m(), s, w); amplify(el, w, amp, el2, w2);
+                R.count(C_INPUTS, cfg.ks.size()); if (dim2 >= 1) R.count(C_NONTRIV, cfg.ks.size());
+                run_case(R, cfg, el2, w2, std::vector<uint64_t>(), dim2, u, s, b2);
+            }
+            return;
+        }
+        int dim = vg::cycle_space_dim(el);
+        std::vector<uint64_t> cyc; if (el.m() <= 62) cyc = vg::all_simple_cycles(el);
         B b(el, w);
         for (uint64_t s = start_sub; s < nw; ++s) { if (R.expired()) break; if (s % wchunks != u % wchunks) continue;
             vg::weighting(alpha, el.m(), s, w);
